@@ -60,6 +60,22 @@
         final(self).pp().wf() && final(self).pp().no_payload(),
         final(self).pp().rf() == old(self).pp().orf(),
         final(self).pp().orf() == old(self).pp().orf(),
+//@ fn ProcessPubPoint for PubPointProcessor<'_>::repository_index
+//@ spec
+    ensures final(self).pp().step_from(old(self).pp()), final(self).pp().same_payload(old(self).pp()),
+        final(self).pp().rf() == old(self).pp().rf(),
+//@ fn ProcessPubPoint for PubPointProcessor<'_>::commit
+//@ spec
+    ensures
+        // C39: a point that carries payload is handed to the report with the deadline it has now;
+        // a point without payload contributes nothing (and no deadline)
+        !self.pp().no_payload() ==> queue_pushed(self.queue(), self.pp()),
+//@ fn PubPoint::is_empty
+//@ spec
+    ensures res == self.no_payload(),
+//@ fn FilterPolicy::log
+//@ spec
+    ensures res == (self is Reject || self is Warn),
 //@ fn PubPoint::new
 //@ spec
     ensures res.wf(), res.no_payload(), res.refresh == refresh, res.orig_refresh == refresh,
@@ -118,6 +134,8 @@
         final(self).refresh matches Some(r) && le(r, refresh)
             && (old(self).refresh matches Some(o) ==> le(r, o)),
         final(self).refresh == Some(match old(self).refresh { Some(o) => tmin(o, refresh), None => refresh }),
+//@ entry
+        broadcast use time_val_injective;
 //@ fn SnapshotBuilder::process_pub_point
 //@ spec
     ensures
@@ -167,6 +185,7 @@ impl PubPoint {
 // ghost accessors (trait methods are public, the extracted structs are private to the unit)
 impl<'a> PubPointProcessor<'a> {
     pub closed spec fn pp(&self) -> PubPoint { self.pub_point }
+    pub closed spec fn queue(&self) -> &SegQueue<PubPoint> { &self.report.pub_points }
 }
 impl CaCert {
     pub closed spec fn cert_spec(&self) -> ResourceCert { self.cert }
